@@ -24,8 +24,8 @@ package pow
 //@   at after call Verify#2: ghost stampErr := callresult
 //@   ensures lengths: err == nil ==> len(req.GetPubKey()) == 32 && len(req.GetSignature()) == 64 && len(req.GetSolution()) > 0
 //@   ensures signed: err == nil ==> sigOK
-//@   ensures difficulty: err == nil ==> hc != nil && hc.Difficulty == p.Difficulty
-//@   ensures expiry-window: err == nil ==> !hc.ExpiresAt.IsZero() && age <= p.Expires * 2 && -age <= p.Expires * 2
+//@   ensures local-difficulty: err == nil ==> hc != nil && hc.Difficulty == p.Difficulty
+//@   ensures local-expiry-window: err == nil ==> !hc.ExpiresAt.IsZero() && age <= p.Expires * 2 && -age <= p.Expires * 2
 //@   ensures stamp-verified-for-subject: err == nil ==> stampErr == nil
 //@   ensures result: err == nil ==> d != nil && d.Subject == subj
 //@   ensures refused-has-no-result: err != nil ==> d == nil
